@@ -1253,6 +1253,8 @@ list_pal(const char *infname, const char *outfname, list_table_t *list_tbl, opti
     int32  find_off, find_len;
     uint16 lut_tag, lut_ref;
     int32  lut_off, lut_len;
+    int32  done_off[1024]; /* file offsets of the lone palettes copied so far */
+    int    n_done = 0;
 
     if (options->trip == 0) {
         return SUCCEED;
@@ -1270,14 +1272,30 @@ list_pal(const char *infname, const char *outfname, list_table_t *list_tbl, opti
 
     while (Hfind(file_id, DFTAG_IP8, DFREF_WILDCARD, &find_tag, &find_ref, &find_off, &find_len, DF_FORWARD) !=
            FAIL) {
-        /* check if already inserted in image: an image recorded this reference number, and the image's
-           DFTAG_LUT is this very palette (the same data), not an unrelated one that got the same number */
-        if (list_table_search(list_tbl, DFTAG_IP8, find_ref) >= 0) {
-            lut_tag = 0;
-            lut_ref = 0;
-            if (Hfind(file_id, DFTAG_LUT, find_ref, &lut_tag, &lut_ref, &lut_off, &lut_len, DF_FORWARD) != FAIL &&
-                lut_off == find_off)
+        /* check if already inserted in image: this is the data (same offset in the file) of the DFTAG_LUT of a
+           palette that an image recorded, under whatever reference number -- the old raster interfaces write one
+           DFTAG_IP8 descriptor per image for a shared palette -- or it is data that was copied already */
+        {
+            int k, attached = 0;
+
+            for (k = 0; k < list_tbl->nobjs && !attached; k++) {
+                if (list_tbl->objs[k].tag != DFTAG_IP8)
+                    continue;
+                lut_tag = 0;
+                lut_ref = 0;
+                if (Hfind(file_id, DFTAG_LUT, (uint16)list_tbl->objs[k].ref, &lut_tag, &lut_ref, &lut_off, &lut_len,
+                          DF_FORWARD) != FAIL &&
+                    lut_off == find_off)
+                    attached = 1;
+            }
+            for (k = 0; k < n_done && !attached; k++) {
+                if (done_off[k] == find_off)
+                    attached = 1;
+            }
+            if (attached)
                 continue;
+            if (n_done < (int)(sizeof(done_off) / sizeof(done_off[0])))
+                done_off[n_done++] = find_off;
         }
 
         if (find_len != (int32)sizeof(palette_data) ||
